@@ -1,0 +1,74 @@
+//go:build verif
+
+// Contracts for the deductive verifier in /verif (govc). Comment-only.
+
+package metric
+
+//@ # C16: rows outside the accepted write window [now-behind, now+ahead] are marked, nothing else is touched
+//@ func BrokerBatchRows.EvictOutOfTimeRange
+//@   prop C16
+//@   arith math
+//@   requires br.rowCount >= 0 && br.rowCount <= len(br.rows) && behind <= 1099511627776 && ahead <= 1099511627776
+//@   modifies br.rows[*]
+//@   ensures[count_of_newly_checked_rows] evicted >= 0 && evicted <= br.rowCount
+//@   ensures[exactly_the_rows_outside_the_window_are_marked] forall(i, 0, br.rowCount, br.rows[i].IsOutOfTimeRange == (old(br.rows[i].IsOutOfTimeRange) || (behind > 0 && metricTs(br.rows[i].m) < clockMs() - behind) || (ahead > 0 && metricTs(br.rows[i].m) > clockMs() + ahead)))
+//@   ensures[rows_are_not_changed_otherwise] forall(i, 0, len(br.rows), br.rows[i].m == old(br.rows[i].m) && br.rows[i].shardIdx == old(br.rows[i].shardIdx) && br.rows[i].buffer == old(br.rows[i].buffer)) && all(i, (i >= br.rowCount && i < len(br.rows)) ==> br.rows[i].IsOutOfTimeRange == old(br.rows[i].IsOutOfTimeRange))
+//@   loop 1 invariant idx >= 0 && idx <= br.rowCount && evicted >= 0 && evicted <= idx && now == clockMs()
+//@   loop 1 invariant forall(i, 0, idx, br.rows[i].IsOutOfTimeRange == (old(br.rows[i].IsOutOfTimeRange) || (behind > 0 && metricTs(br.rows[i].m) < clockMs() - behind) || (ahead > 0 && metricTs(br.rows[i].m) > clockMs() + ahead)))
+//@   loop 1 invariant forall(i, 0, len(br.rows), br.rows[i].m == old(br.rows[i].m) && br.rows[i].shardIdx == old(br.rows[i].shardIdx) && br.rows[i].buffer == old(br.rows[i].buffer)) && all(i, (i >= idx && i < len(br.rows)) ==> br.rows[i].IsOutOfTimeRange == old(br.rows[i].IsOutOfTimeRange))
+//@ end
+
+//@ # ---- shard routing: shard = jump hash of the row's own tags hash, below the shard count ----------------
+//@ predicate batchOK(br *BrokerBatchRows) bool = br.rowCount >= 0 && br.rowCount <= len(br.rows)
+//@ predicate shardItrOK(itr *BrokerBatchShardIterator) bool = itr.batch != nil && batchOK(itr.batch) && itr.groupStart >= 0 && itr.groupStart <= itr.groupEnd && itr.groupEnd <= itr.batch.rowCount
+//@ func BrokerBatchShardIterator.HasRowsForNextShard
+//@   prop C16
+//@   arith math
+//@   requires shardItrOK(itr)
+//@   modifies itr.groupShardIdx, itr.groupStart, itr.groupEnd
+//@   ensures[groups_are_consecutive_so_every_row_is_in_exactly_one] result ==> (itr.groupStart == old(itr.groupEnd) && itr.groupStart < itr.groupEnd && itr.groupEnd <= itr.batch.rowCount)
+//@   ensures[a_group_is_one_shard] result ==> (forall(i, itr.groupStart, itr.groupEnd, itr.batch.rows[i].shardIdx == itr.groupShardIdx) && (itr.groupEnd < itr.batch.rowCount ==> itr.batch.rows[itr.groupEnd].shardIdx != itr.groupShardIdx))
+//@   ensures[no_rows_left_when_done] !result ==> old(itr.groupEnd) >= itr.batch.rowCount
+//@   ensures shardItrOK(itr)
+//@   loop 1 invariant itr.groupStart == old(itr.groupEnd) && itr.groupEnd >= itr.groupStart && itr.groupEnd <= itr.batch.rowCount && itr.groupShardIdx == itr.batch.rows[itr.groupStart].shardIdx && itr.groupStart < itr.batch.rowCount
+//@   loop 1 invariant forall(i, itr.groupStart, itr.groupEnd, itr.batch.rows[i].shardIdx == itr.groupShardIdx)
+//@ end
+
+//@ # ---- family grouping: a group is exactly the rows whose timestamps lie in the family of its first row ---
+//@ predicate famItrOK(itr *BrokerBatchShardFamilyIterator) bool = itr.intervalCalc != nil && itr.groupStart >= 0 && itr.groupStart <= itr.groupEnd && itr.groupEnd <= len(itr.rows) && forall(i, 0, len(itr.rows), tsOK(metricTs(itr.rows[i].m)))
+//@ func BrokerBatchShardFamilyIterator.familyTimeOfTimestamp
+//@   prop C16
+//@   arith math
+//@   requires itr.intervalCalc != nil && tsOK(timestamp)
+//@   ensures result == kFamilyTime(calc_kind(itr.intervalCalc), timestamp) && kindOK(calc_kind(itr.intervalCalc))
+//@ end
+//@ func BrokerBatchShardFamilyIterator.timeRangeOfTimestamp
+//@   prop C16
+//@   arith math
+//@   requires itr.intervalCalc != nil && tsOK(timestamp)
+//@   apply k_compose(calc_kind(itr.intervalCalc), timestamp)
+//@   apply k_contain(calc_kind(itr.intervalCalc), timestamp)
+//@   ensures[range_of_the_family_containing_the_timestamp] kindOK(calc_kind(itr.intervalCalc)) && result.Start == kFamilyTime(calc_kind(itr.intervalCalc), timestamp) && result.End == kFamilyEnd(calc_kind(itr.intervalCalc), kFamilyTime(calc_kind(itr.intervalCalc), timestamp))
+//@   ensures[contains_the_timestamp] result.Start <= timestamp && timestamp <= result.End
+//@ end
+//@ func BrokerBatchShardFamilyIterator.HasNextFamily
+//@   prop C16
+//@   arith math
+//@   requires famItrOK(itr)
+//@   requires itr.sameFamily ==> (len(itr.rows) > 0 ==> (itr.groupFamilyTime == kFamilyTime(calc_kind(itr.intervalCalc), metricTs(itr.rows[0].m)) && forall(i, 0, len(itr.rows), kFamilyTime(calc_kind(itr.intervalCalc), metricTs(itr.rows[0].m)) <= metricTs(itr.rows[i].m) && metricTs(itr.rows[i].m) <= kFamilyEnd(calc_kind(itr.intervalCalc), kFamilyTime(calc_kind(itr.intervalCalc), metricTs(itr.rows[0].m))))))
+//@   modifies itr.groupStart, itr.groupEnd, itr.groupFamilyTime
+//@   ensures[groups_are_consecutive_so_every_row_is_in_exactly_one] result ==> (itr.groupStart < itr.groupEnd && itr.groupEnd <= len(itr.rows) && (!itr.sameFamily ==> itr.groupStart == old(itr.groupEnd)) && (itr.sameFamily ==> (itr.groupStart == 0 && itr.groupEnd == len(itr.rows))))
+//@   ensures[family_time_is_the_family_of_the_first_row] result ==> itr.groupFamilyTime == kFamilyTime(calc_kind(itr.intervalCalc), metricTs(itr.rows[itr.groupStart].m))
+//@   ensures[every_row_of_the_group_is_in_that_family] result ==> forall(i, itr.groupStart, itr.groupEnd, itr.groupFamilyTime <= metricTs(itr.rows[i].m) && metricTs(itr.rows[i].m) <= kFamilyEnd(calc_kind(itr.intervalCalc), itr.groupFamilyTime))
+//@   ensures[group_ends_at_the_first_row_of_another_family] (result && !itr.sameFamily && itr.groupEnd < len(itr.rows)) ==> !(itr.groupFamilyTime <= metricTs(itr.rows[itr.groupEnd].m) && metricTs(itr.rows[itr.groupEnd].m) <= kFamilyEnd(calc_kind(itr.intervalCalc), itr.groupFamilyTime))
+//@   ensures[no_rows_left_when_done] !result ==> old(itr.groupEnd) >= len(itr.rows)
+//@   ensures famItrOK(itr)
+//@   loop 1 invariant itr.groupStart == old(itr.groupEnd) && itr.groupStart < len(itr.rows) && itr.groupEnd >= itr.groupStart && itr.groupEnd <= len(itr.rows) && itr.groupFamilyTime == kFamilyTime(calc_kind(itr.intervalCalc), metricTs(itr.rows[itr.groupStart].m)) && timeRange.Start == itr.groupFamilyTime && timeRange.End == kFamilyEnd(calc_kind(itr.intervalCalc), itr.groupFamilyTime) && kindOK(calc_kind(itr.intervalCalc))
+//@   loop 1 invariant forall(i, itr.groupStart, itr.groupEnd, itr.groupFamilyTime <= metricTs(itr.rows[i].m) && metricTs(itr.rows[i].m) <= kFamilyEnd(calc_kind(itr.intervalCalc), itr.groupFamilyTime))
+//@ end
+//@ func BrokerBatchShardFamilyIterator.NextFamily
+//@   prop C16
+//@   arith math
+//@   requires itr.groupStart >= 0 && itr.groupStart <= itr.groupEnd && itr.groupEnd <= len(itr.rows)
+//@   ensures familyTime == itr.groupFamilyTime && len(rows) == itr.groupEnd - itr.groupStart && forall(i, 0, len(rows), rows[i] == itr.rows[itr.groupStart + i])
+//@ end
